@@ -180,6 +180,9 @@ pub fn cmd_kbd(req: &Value) -> Value {
         if let Some(b) = cfg.get("repeat").and_then(|v| v.as_bool()) {
             kb.set_repeat_enabled(b);
         }
+        if cfg.get("mirror").and_then(|v| v.as_bool()) == Some(false) {
+            kb.disable_fifo_mirroring();
+        }
     }
     let mut out: Vec<Value> = Vec::new();
     if let Some(Value::Array(ops)) = req.get("script") {
